@@ -11,7 +11,6 @@ iteration starts from. The oracle below is independent of the model.
 """
 from __future__ import annotations
 
-import json
 import re
 from typing import Any
 
@@ -28,7 +27,7 @@ LEVEL_TEXT = ("Lean theorems for ALL step lists of one object's stream (any even
               "pending patches, raw-handler durations, sleep lateness, idle retirements of the worker, any consistency_timeout incl. 0 "
               "and negative): barrier (change handlers run only after the last own patch's version was dequeued after that patch, or "
               ">= T after the server applied it), independent_of_foreign_count (same invariant, any number of foreign events/"
-              "retirements in between), barrier_view (with per-object stream order: view >= patch, or timeout), not_delayed (indexing/"
+              "retirements in between), barrier_every_patch (every earlier own patch, not only the last), barrier_view (with per-object stream order: view >= patch, or timeout), not_delayed (indexing/"
               "raw-event/spawning stages precede the barrier, do not depend on the worker state, and a new arrival ends the sleep at once), "
               "disabled (T=0: nothing expected, never sleeps, held only for a pending patch), deadline_monotone, retire_after_deadline, "
               "never_arrives. All full theorems (no _partial). The model is hand-written; it is tied to the code by replaying "
@@ -36,7 +35,7 @@ LEVEL_TEXT = ("Lean theorems for ALL step lists of one object's stream (any even
               "Scope: the barrier covers PATCHes issued by the object's worker (what the anchors name); result patches of daemons/"
               "timers are not tracked by the mechanism (measured, see histogram background_patch).")
 THEOREMS = [("Kopf.Props.C07", "Kopf.C07." + n) for n in [
-    "barrier", "independent_of_foreign_count", "barrier_view", "not_delayed", "disabled", "deadline_monotone",
+    "barrier", "independent_of_foreign_count", "barrier_every_patch", "barrier_view", "not_delayed", "disabled", "deadline_monotone",
     "retire_after_deadline", "never_arrives"]]
 RULE = ("seeded whole-operator scenarios: T in {0, 0.25, 1, 5} s; request latency 1-64 ticks, response latency 0-48 ticks; echo delay of "
         "own writes in {0, < T, = T after the patch, = exactly the worker's deadline, > T}; foreign-event delay and jitter; 0-5 foreign "
@@ -203,41 +202,38 @@ def _split(tr: dict) -> dict[str, dict]:
 
 def oracle(ctx: Ctx, sc: dict, tr: dict) -> None:
     T = float(sc["settings"]["persistence.consistency_timeout"])
-    hk = {h["id"]: h for h in sc["handlers"]}
     ev_ids = [h["id"] for h in sc["handlers"] if h["kind"] == "event"]
     ix_ids = [h["id"] for h in sc["handlers"] if h["kind"] == "index"]
     t_end = min([m["t"] for m in tr["marks"] if m.get("what") == "end"] or [float("inf")])
     for uid, o in _split(tr).items():
         cycles = o["cycles"]
-        # which cycle a change-handler call belongs to: the worker is sequential, `invoked` is in call order
-        ch_calls = [c for c in o["calls"] if c["kind"] in CHANGE_KINDS]
-        ptr = 0
-        for cyc in cycles:
-            n = len(cyc["invoked"])
-            mine = ch_calls[ptr:ptr + n]
-            ptr += n
-            for call in mine:
-                view = int(call["rv"])
-                earlier = [p for p in o["own"] if p["cycle"] < cyc["i"]]
-                if earlier:
-                    last = earlier[-1]
-                    pv, tp = int(last["applied_rv"]), float(last["t_applied"])
-                    stale = view < pv
-                    ctx.count("view", "older-than-own-patch (timeout elapsed)" if stale and call["t"] >= tp + T else
-                              "older-than-own-patch BEFORE timeout" if stale else "not-older")
-                    if stale and call["t"] < tp + T:
-                        ctx.oracle_fail(
-                            f"change handler {call['id']} ran at t={call['t']} on resourceVersion {view}, older than the worker's own "
-                            f"PATCH result {pv} applied at t={tp}; only {call['t'] - tp} s < consistency_timeout={T} elapsed",
-                            {"scenario": sc, "cycle": cyc["i"], "call": call, "patch": last},
-                            {"site": "queueing.worker/process_resource_causes", "shape": "change handler on a view older than the own last patch before the timeout"})
-                bg = [p for p in o["background"] if float(p["t_applied"]) <= call["t"]]
-                if bg:
-                    lastb = bg[-1]
-                    if view < int(lastb["applied_rv"]) and call["t"] < float(lastb["t_applied"]) + T:
-                        ctx.count("background_patch", "change handler on a view older than a daemon/timer patch (untracked by the worker)")
-                    else:
-                        ctx.count("background_patch", "view not older / timeout elapsed")
+        # Every change-handler call against the worker's own PATCHes that were applied by then. (A PATCH of the
+        # same iteration comes after its handlers and takes >= 1 tick of latency, so `t_applied <= t` selects
+        # exactly the patches of earlier iterations.)
+        for call in [c for c in o["calls"] if c["kind"] in CHANGE_KINDS]:
+            view = int(call["rv"])
+            earlier = [p for p in o["own"] if float(p["t_applied"]) <= call["t"]]
+            if earlier:
+                last = earlier[-1]
+                pv, tp = int(last["applied_rv"]), float(last["t_applied"])
+                stale = view < pv
+                ctx.count("view", "older-than-own-patch (timeout elapsed)" if stale and call["t"] >= tp + T else
+                          "older-than-own-patch BEFORE timeout" if stale else "not-older")
+                if stale and call["t"] < tp + T:
+                    ctx.oracle_fail(
+                        f"change handler {call['id']} ran at t={call['t']} on resourceVersion {view}, older than the worker's own "
+                        f"PATCH result {pv} applied at t={tp}; only {call['t'] - tp} s < consistency_timeout={T} elapsed",
+                        {"scenario": sc, "call": call, "patch": last},
+                        {"site": "queueing.worker/process_resource_causes", "shape": "change handler on a view older than the own last patch before the timeout"})
+            else:
+                ctx.count("view", "no own patch yet")
+            bg = [p for p in o["background"] if float(p["t_applied"]) <= call["t"]]
+            if bg:
+                lastb = bg[-1]
+                if view < int(lastb["applied_rv"]) and call["t"] < float(lastb["t_applied"]) + T:
+                    ctx.count("background_patch", "change handler on a view older than a daemon/timer patch (untracked by the worker)")
+                else:
+                    ctx.count("background_patch", "view not older / timeout elapsed")
         # raw-event handlers and indexers are served in every iteration, at the dequeue instant
         for cyc in cycles:
             c7 = cyc.get("c07")
@@ -308,7 +304,6 @@ def oracle(ctx: Ctx, sc: dict, tr: dict) -> None:
                     if not dc or dc[0] > first["t1"]:
                         ctx.oracle_fail(f"daemon {h['id']} was not spawned in the first iteration of the object",
                                         {"scenario": sc, "uid": uid}, {"site": "process_spawning_cause", "shape": "daemon delayed"})
-    _ = hk
 
 
 # ---------------------------------------------------------------------------------------------
@@ -396,6 +391,15 @@ def _sanity(sc: dict, tr: dict) -> None:
     """Environment assumptions of the check itself (a failure here is a harness error, never a verdict)."""
     if not tr["cycles"]:
         raise RuntimeError(f"harness: scenario {sc.get('seed')} produced no processing cycle at all")
+    for c in tr["cycles"]:
+        if c.get("result_rv") is not None and not c.get("error"):
+            base = str(parse_ver(c["result_rv"])[0])
+            if not any(p.get("cycle") == c["i"] and p.get("applied_rv") == base for p in tr["patches"]):
+                raise RuntimeError(f"harness: cycle {c['i']} returned version {c['result_rv']} but no PATCH is attributed to it")
+    n_inv = sum(len(c["invoked"]) for c in tr["cycles"])
+    n_calls = sum(1 for c in tr["calls"] if c["kind"] in CHANGE_KINDS)
+    if n_inv != n_calls:
+        raise RuntimeError(f"harness: {n_calls} change-handler calls but {n_inv} attributed to processing cycles")
     for life in tr["lives"]:
         rvs = [int(a[1]) for a in life["arrivals"] if a[1] != "EOS" and a[1] is not None]
         if any(b <= a for a, b in zip(rvs, rvs[1:])):
@@ -511,6 +515,10 @@ def evaluate(ctx: Ctx, scenarios: list[dict], results: list[dict], tie: bool = T
                 ctx.count("release", "by timeout")
             if shape["never"]:
                 ctx.count("patched", "~which~never~arrives")
+            elif shape["patched"]:
+                e = st["event"]
+                ctx.count("patched", "no-op write: the returned version was dequeued already (awaited until the timeout)"
+                          if e["ver"] is not None and e["patched"][0] <= e["ver"][0] else "new version")
             model = {"given": o["given"], "slept": o["slept"], "entered": o["entered"], "held": o["held"], "ok": m["ok"]}
             real = {"given": impl["given"], "slept": impl["slept"], "entered": impl["entered"], "held": impl["held"], "ok": True}
             ctx.compare("C07 worker iteration (consistency_time given, barrier sleep, decision)", real, model, rep)
@@ -561,4 +569,3 @@ def replay(ctx: Ctx, data: dict) -> None:
     evaluate(ctx, [sc], sim_c07.run_many([sc], wall=40.0, tie=True), tie=True)
     for f in ctx.failures:
         print(f"{f.kind}: {f.what}")
-    _ = json
